@@ -246,25 +246,18 @@ def runMin : List Rat → List Rat
 def bhSorted (sp : List Rat) : List Rat := runMin (bhRaw sp.length 0 sp)
 
 /-- `argsort` (stable; ties receive equal q-values, so the tie order is immaterial) -/
-def argsort (p : Array Rat) : List Nat :=
-  (List.range p.size).mergeSort (fun i j => decide (p.getD i 0 ≤ p.getD j 0))
+def argsort (p : List Rat) : List Nat :=
+  (List.range p.length).mergeSort (fun i j => decide (p.getD i 0 ≤ p.getD j 0))
 
-/-- `fdr`: sort, q-values, un-sort (`q[inverse_order]`, `inverse_order[order] = arange`). -/
+/-- `fdr`: sort, q-values, un-sort (`q[inverse_order]`, `inverse_order[order] = arange`: the
+    inverse permutation sends `i` to its position in `order`). -/
 def fdr (p : List Rat) : Except String (List Rat) :=
   match checkP p with
   | .error e => .error e
   | .ok () =>
-    let pa := p.toArray
-    let order := argsort pa
-    let q := (bhSorted (order.map (pa.getD · 0))).toArray
-    let inv := Id.run do
-      let mut a := Array.replicate p.length 0
-      let mut k := 0
-      for i in order do
-        a := a.setIfInBounds i k
-        k := k + 1
-      return a
-    .ok ((List.range p.length).map fun i => q.getD (inv.getD i 0) 0)
+    let order := argsort p
+    let q := bhSorted (order.map (p.getD · 0))
+    .ok ((List.range p.length).map fun i => q.getD (order.idxOf i) 0)
 
 /-- members of the critical set: `sp[i] < (alpha / n) * (i + 1)` -/
 def critical (pc : Rat) : Nat → List Rat → List Rat
